@@ -689,6 +689,14 @@ impl TransportManager {
             }
         };
 
+        // Addresses of transports that are not enabled can never be dialed and must not be
+        // remembered for the peer.
+        if !self.transports.transports.contains_key(&supported_transport) {
+            return Err(Error::TransportNotSupported(
+                address_record.address().clone(),
+            ));
+        }
+
         // when constructing `AddressRecord`, `PeerId` was verified to be part of the address
         let remote_peer_id =
             PeerId::try_from_multiaddr(address_record.address()).expect("`PeerId` to exist");
